@@ -11,6 +11,7 @@ import (
 	"os/exec"
 	"path/filepath"
 	"runtime"
+	"runtime/pprof"
 	"sort"
 	"strconv"
 	"strings"
@@ -69,6 +70,7 @@ var checks = map[string]*Check{}
 // knownKeys: finding keys of the current property listed in known_findings.json. A monitor that hits
 // one records it (so that the coordinator prints KNOWN-FINDING) and lets the execution continue, so
 // that a listed finding never hides what lies behind it.
+var diagNotes = map[string]int{} // diagnostics that are not clauses of the property being checked
 var knownKeys = map[string]bool{}
 var knownHits = map[string]*Violation{}
 
@@ -105,8 +107,14 @@ func main() {
 	inproc := flag.Bool("inproc", false, "run the suites in this process and print their stats (debugging)")
 	flag.BoolVar(&flagVerbose, "v", false, "verbose")
 	flag.StringVar(&verifDir, "verif", "/verif", "verification directory")
+	cpuprof := flag.String("cpuprofile", "", "write a CPU profile (with -inproc)")
 	flag.Parse()
 	out = vrt.Quiet()
+	if *cpuprof != "" {
+		f, _ := os.Create(*cpuprof)
+		pprof.StartCPUProfile(f)
+		defer pprof.StopCPUProfile()
+	}
 	if *replay != "" {
 		os.Exit(doReplay(*replay))
 	}
@@ -152,6 +160,7 @@ func main() {
 				fmt.Fprintf(out, "  VIOL %s choices=%v\n    %s\n", v.Key, v.Choices, strings.ReplaceAll(v.Detail, "\n", "\n    "))
 			}
 		}
+		pprof.StopCPUProfile()
 		return
 	}
 	if *worker != "" {
@@ -167,7 +176,11 @@ func runSuite(s *Suite) *SuiteStats {
 	t0 := time.Now()
 	st := &SuiteStats{Name: s.Name, Outcomes: map[string]int{}, Bound: s.Bound}
 	knownHits = map[string]*Violation{}
+	diagNotes = map[string]int{}
 	defer func() {
+		for d, n := range diagNotes {
+			st.Notes = append(st.Notes, fmt.Sprintf("%s: diagnostic (not a clause of this property), %d executions: %s", s.Name, n, d))
+		}
 		for _, v := range knownHits {
 			v.Suite = s.Name
 			st.Violations = append(st.Violations, *v)
